@@ -256,6 +256,11 @@ def r17_3(ctx: Ctx, only=None):
     substore_first: Dict[str, List] = {a: [] for a in scr}
     n_paths = 0
     methods = [q for q in queries(ctx) if only is None or q.name in only] + [ev.methods['__init__']]
+    # every other public routine that can re-bind a scratch attribute (SetBounds ...) contributes definitions: what
+    # it leaves behind is what the next query finds
+    config_methods = [f for n_, f in sorted(ev.methods.items()) if f.kind == 'function' and f not in methods
+                      and not n_.startswith('_') and n_ not in QUERIES]
+    methods = methods + config_methods
     for q in methods:
         selfv = var(q.param_names[0])
         Nfield = attr(selfv, 'numberOfFloatVariables')
@@ -280,7 +285,7 @@ def r17_3(ctx: Ctx, only=None):
                         if a not in first:
                             first[a] = 'def'
                         continue
-                    if a in first or q.name == '__init__':
+                    if a in first or q.name == '__init__' or q in config_methods:
                         continue
                     if e.kind == 'store' and e.d['tkind'] == 'sub' and C.mentions(e.d['base'], init_atom):
                         first[a] = 'substore'
@@ -318,7 +323,7 @@ def r17_3(ctx: Ctx, only=None):
                                  f'{q.short}: the scratch array {a} is read before it is re-established on this '
                                  f'path: the result depends on what an earlier query left there',
                                  key=f'{rid}::{q.short}::{a}::stale-read')
-            if q.name != '__init__':
+            if q.name != '__init__' and q not in config_methods:
                 for a in scr:
                     if first.get(a) in ('def',):
                         ctx.ok(rid, q.short, f'first access to {a} on the path is a full re-definition', q.loc())
